@@ -211,6 +211,8 @@ func TestC04(t *testing.T) {
 			switch wrap {
 			case "bare", "pred", "<#1n":
 				wrap = "=nodes"
+			case "strlen", "normalize-space#1", "lang#1", "string", "number":
+				wrap = "foreign-context"
 			}
 		}
 		var e *xast.Expr
@@ -218,6 +220,12 @@ func TestC04(t *testing.T) {
 			e = f(src)
 		}
 		switch wrap {
+		case "foreign-context":
+			// the foreign nodes as predicate context of the context-dependent functions, next to the same functions on the queried document
+			inner := []*xast.Expr{xast.Bin(">", xast.Call("string-length"), xast.Num("1")), xast.Call("lang", xast.Str("en")), xast.Bin("=", xast.Call("normalize-space"), xast.Path(false, xast.S("self", xast.NodeT()))),
+				xast.Bin("=", xast.Call("name"), xast.Str("a")), xast.Bin("=", xast.Call("local-name"), xast.Str("id")), xast.Bin(">", xast.Call("number"), xast.Num("1")), xast.Bin("=", xast.Call("string"), xast.Str("1"))}[rapid.IntRange(0, 6).Draw(t, "foreignFn")]
+			own := xast.Path(true, xast.DS("child", xast.NodeT(), inner))
+			e = xast.Call("concat", xast.Call("count", own), xast.Str(" "), xast.Call("count", xast.Filter(src, []*xast.Expr{inner})), xast.Str(" "), xast.Call("count", own))
 		case "=nodes":
 			e = xast.Bin([]string{"=", "!=", "<", ">="}[rapid.IntRange(0, 3).Draw(t, "foreignOp")], src, xast.Path(true, xast.DS("child", xast.NodeT())))
 			if rapid.Bool().Draw(t, "foreignAttrs") {
